@@ -707,10 +707,25 @@ def _reused_tree(obj, good, bad, what):
         return []
     try:
         new.loads(bad)
+        return ["%s: rejected by a fresh object but accepted by an object that had read another valid tree (without variants, listing "
+                "more platforms) before" % what]
+    except Exception:
+        pass
+    # ... and an object whose first file was a pre-productmd tree (no [header]; another variant, the same architecture)
+    arch = Ini(good).p.get("tree", "arch")
+    legacy = ("[general]\nfamily = Fedora\ntimestamp = 1432300000.12\nversion = 22\npackagedir = Packages\nrepository = .\n"
+              "variant = ZzLegacy\narch = %s\nplatforms = %s\n\n[images-%s]\nkernel = images/pxeboot/vmlinuz\n\n"
+              "[stage2]\nmainimage = images/install.img\n\n[checksums]\nimages/pxeboot/vmlinuz = sha256:%s\n" % (arch, arch, arch, "a" * 64))
+    new = type(obj)()
+    try:
+        new.loads(legacy)
     except Exception:
         return []
-    return ["%s: rejected by a fresh object but accepted by an object that had read another valid tree (without variants, listing "
-            "more platforms) before" % what]
+    try:
+        new.loads(bad)
+    except Exception:
+        return []
+    return ["%s: rejected by a fresh object but accepted by an object whose first file was a pre-productmd tree (no [header])" % what]
 
 
 # ----------------------------------------------------------------- C18: real invalid values through dump(path)
